@@ -80,8 +80,11 @@ class Contract:
         self.returns = kw.pop('returns', None)
         self.assumes = kw.pop('assumes', [])      # listed in the trusted base
         self.kind = kw.pop('kind', 'function')
+        # variant: a second contract of the same function for another typing of its parameters (e.g. a parameter left
+        # at its default); call sites use the contract without variant
+        self.variant = kw.pop('variant', None)
         self.extra = kw
-        self.key = '%s::%s' % (rel, qualname)
+        self.key = '%s::%s' % (rel, qualname) + ('#' + self.variant if self.variant else '')
 
 
 class Engine:
@@ -104,7 +107,7 @@ class Engine:
     # obligations
     # ------------------------------------------------------------------
     def oblige(self, st, kind, goal, line=0, extra_hyps=()):
-        name = '%s::%s/%s@L%d' % (self.rel, self.cur.qualname, kind, line)
+        name = '%s::%s%s/%s@L%d' % (self.rel, self.cur.qualname, ('#' + self.cur.variant) if getattr(self.cur, 'variant', None) else '', kind, line)
         if z3.is_true(goal):
             # trivially true obligations are still counted (discharged syntactically)
             self.obligations.append(Obligation(name, [], z3.BoolVal(True), line, kind))
@@ -406,6 +409,12 @@ class Engine:
             return z3.BoolVal(False)
         if a.kind != b.kind:
             return z3.BoolVal(False)
+        if a.kind == 'fn' and self.world is not None:
+            # function objects: the same defunctionalised value
+            try:
+                return self.world.to_fn(self, a) == self.world.to_fn(self, b)
+            except EngineError:
+                pass
         raise EngineError('is-comparison of %s and %s' % (a.kind, b.kind))
 
     def equal(self, st, a, b):
